@@ -704,7 +704,7 @@ Section Main.
     trace cached (init Str repeat pos0 z0) ops = strace (sinit repeat pos0 z0) ops.
   Proof.
     intros cached repeat pos0 z0 ops (HN & He & Hne) Hr Hh.
-    apply (trace_sim (sizes := sizes_of z0 ops) HN He Hne Hh).
+    apply (@trace_sim Str Size fmt_frame hash N cached (sizes_of z0 ops) HN He Hne Hh).
     - apply init_Inv; auto using z0_in_sizes_of.
     - apply init_R.
     - apply ops_in_sizes_of.
@@ -725,7 +725,7 @@ Section Main.
     R (fst (run cached (init Str repeat pos0 z0) ops)) (srun fmt_frame N (sinit repeat pos0 z0) ops).
   Proof.
     intros cached repeat pos0 z0 ops (HN & He & Hne) Hr Hh.
-    apply (reach_sim (sizes := sizes_of z0 ops) HN He Hne Hh); auto using z0_in_sizes_of, ops_in_sizes_of.
+    apply (@reach_sim Str Size fmt_frame hash N cached (sizes_of z0 ops) HN He Hne Hh); auto using z0_in_sizes_of, ops_in_sizes_of.
   Qed.
 
   Lemma sizes_of_app_incl : forall z0 (ops : list (op Size)) o a,
@@ -764,7 +764,7 @@ Section Main.
     Proof.
       assert (Hh' : cached = true -> hash_separates hash (sizes_of z0 ops)).
       { intros Hc x y Hx Hy. apply (Hhash Hc); apply sizes_of_app_incl; assumption. }
-      destruct (reach pos0 z0 ops Hrend Hrep Hh') as (HI & HR).
+      destruct (@reach cached repeat pos0 z0 ops Hrend Hrep Hh') as (HI & HR).
       split; [|split; [exact HR|]].
       - eapply Inv_mono; [|exact Hhash|exact HI]. intros x. apply sizes_of_app_incl.
       - pose proof (ops_in_sizes_of z0 (ops ++ [o])) as F. rewrite Forall_forall in F.
@@ -774,43 +774,43 @@ Section Main.
     (** the number of the last yielded frame is the image's seek position, the frame is the
         direct formatting of that frame at the image's current size; operations other than
         [next] leave the position alone *)
-    Lemma seek_position_tracks_last_yield :
+    Lemma seek_position_tracks_last_yield_gen :
       (forall s' k f, step cached s o = (s', OYield k f) ->
          o = Next /\ (k < N)%nat /\ pos s' = Z.of_nat k /\ fmt_frame k (size s) = Ok f /\ img_open s' = true)
       /\ (o <> Next -> pos (fst (step cached s o)) = pos s).
     Proof.
       destruct Hrend as (HN & He & Hne). destruct reach_Inv as (HI & HR & Ho). split.
-      - intros s' k f E. exact (yield_sim HN He Hne Hhash o HI HR Ho E).
+      - intros s' k f E. exact (@yield_sim Str Size fmt_frame hash N cached zs HN He Hne Hhash s a o s' k f HI HR Ho E).
       - apply other_ops_keep_position.
     Qed.
 
     (** when [next] first reports the end: position 0, countdown 0, the source PIL image
         sought to frame 0, the iterator closed and its image handed to [_close_image] *)
-    Lemma exhaustion_resets_to_zero : forall s',
+    Lemma exhaustion_resets_to_zero_gen : forall s',
       o = Next -> ph s <> PEnd -> step cached s Next = (s', OStop) ->
       pos s' = 0 /\ loop_no s' = Some 0 /\ src_reset s' = true /\ ph s' = PEnd /\ img_open s' = false.
     Proof.
       intros s' Eo Hph E. destruct Hrend as (HN & He & Hne). destruct reach_Inv as (HI & HR & _).
-      exact (exhaustion_sim HN He Hne Hhash HI HR Hph E).
+      exact (@exhaustion_sim Str Size fmt_frame hash N cached zs HN He Hne Hhash s a s' HI HR Hph E).
     Qed.
 
     (** a failing frame closes the iterator and its image *)
-    Lemma failure_closes : forall s',
+    Lemma failure_closes_gen : forall s',
       ph s <> PEnd -> step cached s o = (s', ORaise) -> ph s' = PEnd /\ img_open s' = false.
     Proof.
-      intros s' Hph E. destruct (step_ends _ _ _ _ _ _ E Hph) as (_ & H). exact (H eq_refl).
+      intros s' Hph E. destruct (@step_ends Str Size fmt_frame hash N cached zs Hhash s s' o ORaise E Hph) as (_ & H). exact (H eq_refl).
     Qed.
 
     (** the generator never spins without yielding *)
-    Lemma never_hangs : snd (step cached s o) <> OHang.
+    Lemma never_hangs_gen : snd (step cached s o) <> OHang.
     Proof.
       destruct Hrend as (HN & He & Hne). destruct reach_Inv as (HI & HR & Ho).
-      exact (no_hang_sim HN He Hne Hhash o HI HR Ho).
+      exact (@no_hang_sim Str Size fmt_frame hash N cached zs HN He Hne Hhash s a o HI HR Ho).
     Qed.
 
     (** seek(p) on a started, open iterator replaces the index of the next frame and does
         not consume a pass *)
-    Lemma seek_replaces_next_index : forall p,
+    Lemma seek_replaces_next_index_gen : forall p,
       o = Seek p -> (ph s = P1 \/ ph s = P2) -> 0 <= p < Z.of_nat N ->
       let s1 := fst (step cached s (Seek p)) in
       let r2 := step cached s1 Next in
@@ -822,9 +822,89 @@ Section Main.
                end.
     Proof.
       intros p Eo Hph Hp. destruct Hrend as (HN & He & Hne). destruct reach_Inv as (HI & HR & _).
-      exact (seek_sim HN He Hne Hhash HI HR Hph Hp).
+      exact (@seek_sim Str Size fmt_frame hash N cached zs HN He Hne Hhash s a p HI HR Hph Hp).
     Qed.
   End AfterHistory.
+
+  Notation after := (after fmt_frame hash N).
+
+  Lemma hash_sep_snoc : forall z0 (ops : list (op Size)) o,
+    (forall z, o <> SetImageSize z) ->
+    hash_separates hash (sizes_of z0 ops) -> hash_separates hash (sizes_of z0 (ops ++ [o])).
+  Proof.
+    intros z0 ops o Ho H x y Hx Hy.
+    assert (G : forall a, In a (sizes_of z0 (ops ++ [o])) -> In a (sizes_of z0 ops)).
+    { intros a0 [Ha|Ha]; [left; assumption|right]. rewrite flat_map_app in Ha.
+      apply in_app_or in Ha. destruct Ha as [Ha|Ha]; [assumption|].
+      destruct o; simpl in Ha; try contradiction. elim (Ho z). reflexivity. }
+    apply H; apply G; assumption.
+  Qed.
+
+  (** the number of the last yielded frame is the image's seek position; the frame is the
+      direct formatting of that frame at the image's current size; the iterator's image
+      stays open; operations other than next() leave the position alone *)
+  Lemma seek_position_tracks_last_yield : forall cached repeat pos0 z0 ops o,
+    renderer_ok fmt_frame N -> repeat <> 0 ->
+    (cached = true -> hash_separates hash (sizes_of z0 (ops ++ [o]))) ->
+    let s := after cached repeat pos0 z0 ops in
+    (forall s' k f, step cached s o = (s', OYield k f) ->
+       o = Next /\ (k < N)%nat /\ pos s' = Z.of_nat k /\ fmt_frame k (size s) = Ok f /\ img_open s' = true)
+    /\ (o <> Next -> pos (fst (step cached s o)) = pos s).
+  Proof. intros. apply seek_position_tracks_last_yield_gen; assumption. Qed.
+
+  (** when next() first reports the end: position 0, countdown 0, the source PIL image
+      sought to frame 0, the iterator closed and its image handed to [_close_image] *)
+  Lemma exhaustion_resets_to_zero : forall cached repeat pos0 z0 ops s',
+    renderer_ok fmt_frame N -> repeat <> 0 ->
+    (cached = true -> hash_separates hash (sizes_of z0 ops)) ->
+    let s := after cached repeat pos0 z0 ops in
+    ph s <> PEnd -> step cached s Next = (s', OStop) ->
+    pos s' = 0 /\ loop_no s' = Some 0 /\ src_reset s' = true /\ ph s' = PEnd /\ img_open s' = false.
+  Proof.
+    intros cached repeat pos0 z0 ops s' Hr Hrep Hh s Hph E.
+    apply (@exhaustion_resets_to_zero_gen cached repeat pos0 z0 ops Next); auto.
+    intros Hc. apply hash_sep_snoc; auto. discriminate.
+  Qed.
+
+  (** a failing frame closes the iterator and its image *)
+  Lemma failure_closes : forall cached repeat pos0 z0 ops o s',
+    let s := after cached repeat pos0 z0 ops in
+    ph s <> PEnd -> step cached s o = (s', ORaise) -> ph s' = PEnd /\ img_open s' = false.
+  Proof.
+    intros cached repeat pos0 z0 ops o s' s Hph E.
+    destruct (@step_ends Str Size fmt_frame hash N cached [] (fun _ _ _ H => match H with end) s s' o ORaise E Hph)
+      as (_ & H).
+    exact (H eq_refl).
+  Qed.
+
+  (** the generator never spins without yielding *)
+  Lemma never_hangs : forall cached repeat pos0 z0 ops o,
+    renderer_ok fmt_frame N -> repeat <> 0 ->
+    (cached = true -> hash_separates hash (sizes_of z0 (ops ++ [o]))) ->
+    snd (step cached (after cached repeat pos0 z0 ops) o) <> OHang.
+  Proof. intros. apply never_hangs_gen; assumption. Qed.
+
+  (** seek(p) on a started, open iterator replaces the index of the next frame and does not
+      consume a pass: position and countdown are unchanged by the seek, the next frame is
+      frame p formatted at the current size, and the countdown is still the same *)
+  Lemma seek_replaces_next_index : forall cached repeat pos0 z0 ops p,
+    renderer_ok fmt_frame N -> repeat <> 0 ->
+    (cached = true -> hash_separates hash (sizes_of z0 ops)) ->
+    let s := after cached repeat pos0 z0 ops in
+    (ph s = P1 \/ ph s = P2) -> 0 <= p < Z.of_nat N ->
+    let s1 := fst (step cached s (Seek p)) in
+    let r2 := step cached s1 Next in
+    snd (step cached s (Seek p)) = OSeekOk /\ pos s1 = pos s /\ loop_no s1 = loop_no s /\
+    loop_no (fst r2) = loop_no s /\ pos (fst r2) = p /\
+    snd r2 = match fmt_frame (Z.to_nat p) (size s) with
+             | Ok f => OYield (Z.to_nat p) f
+             | _ => ORaise
+             end.
+  Proof.
+    intros cached repeat pos0 z0 ops p Hr Hrep Hh s Hph Hp.
+    apply (@seek_replaces_next_index_gen cached repeat pos0 z0 ops (Seek p)); auto.
+    intros Hc. apply hash_sep_snoc; auto. discriminate.
+  Qed.
 
   (** close() / deletion: from then on nothing is rendered, nothing moves *)
   Lemma close_is_final : forall cached (s : st Str Size) o ops, o = Close \/ o = Drop ->
@@ -908,8 +988,9 @@ Section Main.
         { simpl. rewrite Hc, Hn, Nat.ltb_irrefl, Hle.
           destruct (l =? 0) eqn:E0; [apply Z.eqb_eq in E0; contradiction|].
           unfold produce. rewrite Hz, HF by lia. reflexivity. }
-        replace N with (S (N - 1)) at 1 3 4 5 6 by lia.
-        simpl repeat. cbn [strace ImgIterSpec.strace srun ImgIterSpec.srun]. rewrite E. cbn [fst snd].
+        assert (RN : repeat (@Next Size) N = Next :: repeat Next (N - 1)).
+        { replace N with (S (N - 1)) at 1 by lia. reflexivity. }
+        rewrite RN. cbn [strace ImgIterSpec.strace srun ImgIterSpec.srun]. rewrite E. cbn [fst snd].
         destruct (@rest_of_pass (N - 1) 1%nat {| started := true; closed := false; nxt := 1; left := l;
                                                  spos := 0; ssize := z0; sloop := Some l |})
           as (T & H1 & H2 & H3 & H4); try reflexivity; try lia.
@@ -1007,3 +1088,74 @@ Section Main.
     - intros _. rewrite sizes_of_repeat_next. apply one_size_separated.
   Qed.
 End Main.
+
+(* ====================================================================== *)
+(** * Non-vacuity: the hypotheses hold of a concrete renderer, and the theorems then speak
+      about non-trivial histories (seek before start, seek, size change between frames with
+      the cache on, second pass served from the cache, exhaustion, use after the end; a
+      failing frame) *)
+
+Definition ex_fmt (k z : nat) : res nat :=
+  if (k <? 3)%nat then (if (k =? 1)%nat && (z =? 9)%nat then Err else Ok (100 * z + k)%nat)
+  else if (k =? 3)%nat then Eof else Err.
+
+Example ex_renderer_ok : renderer_ok ex_fmt 3.
+Proof.
+  split; [lia|]. split; [reflexivity|].
+  intros k z Hk. destruct k as [|[|[|k]]]; try lia; unfold ex_fmt; simpl; try discriminate.
+  destruct (z =? 9)%nat; discriminate.
+Qed.
+
+Example ex_hash_separates : forall l, hash_separates Z.of_nat l.
+Proof. intros l a b _ _ H. lia. Qed.
+
+Definition ex_history : list (op nat) :=
+  [Seek 1; Next; Next; Seek 0; Next; SetImageSize 7%nat; Next; Next; Next; SetImageSize 5%nat;
+   Next; Next; Next; Next; Seek 1].
+
+Example ex_trace :
+  trace ex_fmt Z.of_nat 3 true (init nat 2 1 5%nat) ex_history =
+  [(OSeekNotStarted, 1, None, true);
+   (OYield 0 500%nat, 0, Some 2, true); (OYield 1 501%nat, 1, Some 2, true);
+   (OSeekOk, 1, Some 2, true); (OYield 0 500%nat, 0, Some 2, true);
+   (OSized, 0, Some 2, true);
+   (OYield 1 701%nat, 1, Some 2, true); (OYield 2 702%nat, 2, Some 2, true);
+   (OYield 0 700%nat, 0, Some 1, true);
+   (OSized, 0, Some 1, true);
+   (OYield 1 501%nat, 1, Some 1, true); (OYield 2 502%nat, 2, Some 1, true);
+   (OStop, 0, Some 0, false); (OStop, 0, Some 0, false); (OSeekClosed, 0, Some 0, false)].
+Proof. vm_compute. reflexivity. Qed.
+
+(** ... and the refinement theorem applies to it *)
+Example ex_refines :
+  trace ex_fmt Z.of_nat 3 true (init nat 2 1 5%nat) ex_history =
+  strace ex_fmt 3 (sinit 2 1 5%nat) ex_history.
+Proof.
+  apply imgiter_refines_spec; [exact ex_renderer_ok|discriminate|intros _; apply ex_hash_separates].
+Qed.
+
+(** a failing frame (frame 1 at size 9), infinite repeat, no cache *)
+Example ex_trace_failure :
+  trace ex_fmt Z.of_nat 3 false (init nat (-1) 0 5%nat) [Next; SetImageSize 9%nat; Next; Next; Seek 2] =
+  [(OYield 0 500%nat, 0, Some (-1), true); (OSized, 0, Some (-1), true);
+   (ORaise, 1, Some (-1), false); (OStop, 1, Some (-1), false); (OSeekClosed, 1, Some (-1), false)].
+Proof. vm_compute. reflexivity. Qed.
+
+(** the premises of [exhaustion_resets_to_zero] and [seek_replaces_next_index] are reachable *)
+Example ex_exhaustion_premises :
+  let s := after ex_fmt Z.of_nat 3 true 2 0 5%nat [Next; Next; Next; Next; Next; Next] in
+  ph s = P2 /\ snd (step ex_fmt Z.of_nat 3 true s Next) = OStop.
+Proof. vm_compute. auto. Qed.
+
+Example ex_seek_premises :
+  ph (after ex_fmt Z.of_nat 3 true 2 0 5%nat [Next; Next]) = P1 /\
+  ph (after ex_fmt Z.of_nat 3 true 2 0 5%nat [Next; Next; Next; Next]) = P2.
+Proof. vm_compute. auto. Qed.
+
+Example ex_frames :
+  trace ex_fmt Z.of_nat 3 true (init nat 2 0 5%nat) (repeat Next (2 * 3 + 2)) =
+  passes 3 (fun k => (500 + k)%nat) 2 ++ repeat (stopped nat) 2.
+Proof.
+  apply (@imgiter_frames nat nat ex_fmt Z.of_nat 3 true (fun k => (500 + k)%nat) 5%nat 1 2 0 ex_renderer_ok).
+  intros k Hk. destruct k as [|[|[|k]]]; try lia; reflexivity.
+Qed.
